@@ -24,7 +24,10 @@ ALPHA_T = Alphabet(
 
 
 def cfg(tier):
-    return (ALPHA, 3) if tier == "quick" else (ALPHA_T, 4)
+    return (ALPHA, 3) if tier == "quick" else (ALPHA_T, 3)
+
+
+ALPHA_4 = Alphabet(max_ctx=2, add=ALPHA.add, fac=ALPHA.fac, look=ALPHA.look)
 
 
 def params(tier):
@@ -33,8 +36,8 @@ def params(tier):
 
 
 @guard
-def rfn(a, tier):
-    alpha, K = cfg(tier)
+def rfn(a, tier, four=False):
+    alpha, K = (ALPHA_4, 4) if four else cfg(tier)
     ops = decode(a, alpha, K)
     div, eng = run_history(ops)
     summary = {"history": [o.text() for o in ops], "factory_calls": eng.fac_calls}
@@ -56,12 +59,27 @@ R = Harness(
         "histories of 3 ops over <=3 contexts: create_child, add_resource(T1), add_resource_factory(T0 | T0+T1, sync | async), "
         "lookup(T0|T1 via nowait/await/inject_sync/inject_async); then generating probes everywhere"
         if tier == "quick"
-        else "histories of 4 ops, same alphabet plus a static T0, a second-name async factory and shortcut lookups"
+        else "histories of 3 ops, same alphabet plus a static T0, a second-name async factory and shortcut lookups"
     ),
     oracle="factory called exactly once per (context, factory), in the requesting context; product returned afterwards for every factory type "
     "not already taken there, by every API; invisible in the parent; not inherited by contexts created later (sync AND async generation); "
     "AsyncResourceError from sync APIs on async factories with nothing stored",
     outside="factories that raise; longer histories",
+    stubs=STUBS_COMMON,
+)
+
+
+R4 = Harness(
+    prop="C04",
+    name="R4",
+    fn=lambda a, tier: rfn(a, tier, True),
+    params=lambda tier: [P(f"o{i}", 0, max_options(ALPHA_4) - 1) for i in range(4)],
+    cube=lambda tier: 2,
+    tiers=("thorough",),
+    title="R-history of FOUR operations over <=2 contexts (the quick alphabet)",
+    bound_text=lambda tier: "histories of 4 ops over <=2 contexts with the quick tier's alphabet, then generating probes",
+    oracle=R.oracle,
+    outside=R.outside,
     stubs=STUBS_COMMON,
 )
 
@@ -224,7 +242,7 @@ RACE = Harness(
     stubs=STUBS_COMMON,
 )
 
-HARNESSES = [R, RACE]
+HARNESSES = [R, R4, RACE]
 
 
 # ------------------------------------------------------------------------------ K-comp
